@@ -544,6 +544,87 @@ class Inliner:
             for q, fn, cls, func in qualnames(t, mn):
                 self.index[q] = (fn, cls, func, mn)
 
+    # -- class hierarchy: overriding and specialisation ---------------------
+    def _class_table(self):
+        """{class name: (module, ClassDef)} for module-level classes (names are unique enough in one package) and {class: [subclasses]}"""
+        classes = {}
+        for mn, t in self.trees.items():
+            for s in t.body:
+                if isinstance(s, ast.ClassDef):
+                    classes.setdefault(s.name, (mn, s))
+        subs = {}
+        for name, (mn, cd) in classes.items():
+            for b in cd.bases:
+                bn = b.id if isinstance(b, ast.Name) else b.attr if isinstance(b, ast.Attribute) else None
+                if bn in classes:
+                    subs.setdefault(bn, []).append(name)
+        return classes, subs
+
+    def _all_subclasses(self, name):
+        out, todo = [], list(self._subs.get(name, []))
+        while todo:
+            c = todo.pop()
+            if c not in out:
+                out.append(c)
+                todo += self._subs.get(c, [])
+        return out
+
+    @staticmethod
+    def _methods(cd):
+        return {s.name: s for s in cd.body if isinstance(s, (ast.FunctionDef, ast.AsyncFunctionDef))}
+
+    def _override_safe(self, clsname, hook, within):
+        """may `self.<hook>()` inside method `within` of class clsname be bound to clsname's own definition: every subclass that
+        redefines the hook also has its own `within` (so the method being unfolded never runs for it)"""
+        for sub in self._all_subclasses(clsname):
+            mn, cd = self._classes[sub]
+            ms = self._methods(cd)
+            if hook in ms:
+                # the nearest definition of `within` on the way up from sub must not be the one of clsname
+                c = sub
+                while c is not None and c != clsname:
+                    if within in self._methods(self._classes[c][1]):
+                        break
+                    bases = [b.id if isinstance(b, ast.Name) else getattr(b, "attr", None) for b in self._classes[c][1].bases]
+                    c = next((b for b in bases if b in self._classes), None)
+                if c is None or c == clsname:
+                    return False
+        return True
+
+    def _specialise(self):
+        """template-method pattern: a method M of a base class that calls a hook `self.h()` (h outside the inventory) which a subclass
+        redefines is what the subclass runs with its own h: the subclass gets its own copy of M (which the unfolding then specialises).
+        This restores per-class methods that a refactoring merged into one base-class method with hooks."""
+        made = False
+        for name, (mn, cd) in list(self._classes.items()):
+            ms = self._methods(cd)
+            for mname, m in ms.items():
+                hooks = {c.func.attr for c in ast.walk(m) if isinstance(c, ast.Call) and isinstance(c.func, ast.Attribute) and isinstance(c.func.value, ast.Name) and c.func.value.id in ("self", "cls")
+                         and c.func.attr in ms and c.func.attr != mname and (mn + "." + name + "." + c.func.attr) not in self.known}
+                if not hooks:
+                    continue
+                for sub in self._all_subclasses(name):
+                    smn, scd = self._classes[sub]
+                    sms = self._methods(scd)
+                    if mname in sms:
+                        continue
+                    # does sub (or a class between) redefine one of the hooks, and is M inherited from `name` itself
+                    c, redefines, inherited_from = sub, False, None
+                    while c is not None:
+                        cms = self._methods(self._classes[c][1])
+                        if c != name and hooks & set(cms):
+                            redefines = True
+                        if mname in cms:
+                            inherited_from = c
+                            break
+                        bases = [b.id if isinstance(b, ast.Name) else getattr(b, "attr", None) for b in self._classes[c][1].bases]
+                        c = next((b for b in bases if b in self._classes), None)
+                    if redefines and inherited_from == name and smn == mn:
+                        scd.body.append(copy.deepcopy(m))
+                        self.stats.setdefault("specialised", []).append("%s.%s.%s <- %s" % (smn, sub, mname, name))
+                        made = True
+        return made
+
     # -- N9: objects of classes outside the inventory ---------------------
     DUNDER_OK = {"__init__", "__call__", "__enter__", "__exit__"}
 
@@ -930,15 +1011,16 @@ class Inliner:
                 q = self._objs[f.value.id] + "." + f.attr
                 return (q, f.value) if q in self.index else (None, None)
             if f.value.id in ("self", "cls") and cls is not None:
+                within = (self._cur or "").rsplit(".", 1)[-1]
                 q = modname + "." + cls.name + "." + f.attr
                 if q in self.index:
-                    return q, f.value
+                    return (q, f.value) if q in self.known or self._override_safe(cls.name, f.attr, within) else (None, None)
                 # inherited helper: a base class of the same module
                 for b in cls.bases:
                     if isinstance(b, ast.Name):
                         q = modname + "." + b.id + "." + f.attr
                         if q in self.index:
-                            return q, f.value
+                            return (q, f.value) if q in self.known or (self._override_safe(b.id, f.attr, within) and not any(f.attr in self._methods(self._classes[s_][1]) for s_ in [cls.name] if s_ in self._classes)) else (None, None)
                 return None, None
             q = modname + "." + f.value.id + "." + f.attr
             if q in self.index and isinstance(self.index[q][1], ast.ClassDef):
@@ -970,7 +1052,9 @@ class Inliner:
                                 self.stats["sites"].append("? <- " + q)
 
     def run(self):
-        self._as_lambdas()
+        self._classes, self._subs = self._class_table()
+        if self._specialise():
+            self._reindex()
         self._tried = set()
         any_obj = False
         for mn, tree in self.trees.items():
@@ -986,6 +1070,7 @@ class Inliner:
                 for _round in range(4):
                     if not self._expand(fn, q, mn, cls):
                         break
+        self._as_lambdas()
         # a helper outside the inventory whose every use was unfolded is dropped: its code now lives in its callers
         used = {}
         for q in list(self.index):
@@ -1886,6 +1971,70 @@ def _single_use_test_temp(stmts, loads=None):
     return out
 
 
+_SENTINELS = set()
+
+
+def _is_sent_test(t, v):
+    """(name of sentinel, True if the test is `v is S`, False if `v is not S`) or None"""
+    if isinstance(t, ast.Compare) and len(t.ops) == 1 and isinstance(t.ops[0], (ast.Is, ast.IsNot)) and isinstance(t.left, ast.Name) and (v is None or t.left.id == v) \
+            and isinstance(t.comparators[0], ast.Name) and t.comparators[0].id in _SENTINELS:
+        return t.left.id, t.comparators[0].id, isinstance(t.ops[0], ast.Is)
+    return None
+
+
+def _sentinel_elim(stmts):
+    """a private module-level `S = object()` used as 'nothing found':
+         v = S;                         if v is S: A else: B    ->  A
+         v = X if c else S;             if v is S: A else: B    ->  if c: v = X; B  else: A
+         if c: ..; v = X  else: v = S;  if v is S: A else: B    ->  if c: ..; v = X; B  else: A
+    (X does not mention S: the sentinel is never the value of anything else)"""
+    if not _SENTINELS:
+        return stmts
+    out = list(stmts)
+    i = 0
+    while i + 1 < len(out):
+        a, chk = out[i], out[i + 1]
+        st = _is_sent_test(chk.test, None) if isinstance(chk, ast.If) else None
+        if st is None:
+            i += 1
+            continue
+        v, S, is_ = st
+        on_sent, otherwise = (chk.body, chk.orelse) if is_ else (chk.orelse, chk.body)
+
+        def mentions(e):
+            return any(isinstance(n, ast.Name) and n.id == S for n in ast.walk(e))
+
+        def is_sent_assign(s):
+            return isinstance(s, ast.Assign) and len(s.targets) == 1 and isinstance(s.targets[0], ast.Name) and s.targets[0].id == v and isinstance(s.value, ast.Name) and s.value.id == S
+
+        def is_val_assign(s):
+            return isinstance(s, ast.Assign) and len(s.targets) == 1 and isinstance(s.targets[0], ast.Name) and s.targets[0].id == v and not mentions(s.value)
+        new = None
+        if is_sent_assign(a):
+            new = list(on_sent)
+        elif isinstance(a, ast.Assign) and len(a.targets) == 1 and isinstance(a.targets[0], ast.Name) and a.targets[0].id == v and isinstance(a.value, ast.IfExp):
+            ie = a.value
+            if isinstance(ie.orelse, ast.Name) and ie.orelse.id == S and not mentions(ie.body):
+                new = [ast.If(test=ie.test, body=[ast.Assign(targets=a.targets, value=ie.body)] + list(otherwise), orelse=list(on_sent))]
+            elif isinstance(ie.body, ast.Name) and ie.body.id == S and not mentions(ie.orelse):
+                new = [ast.If(test=ie.test, body=list(on_sent), orelse=[ast.Assign(targets=a.targets, value=ie.orelse)] + list(otherwise))]
+        elif isinstance(a, ast.If) and a.body and a.orelse:
+            if len(a.orelse) == 1 and is_sent_assign(a.orelse[0]) and is_val_assign(a.body[-1]) and not any(mentions(s) for s in a.body):
+                new = [ast.If(test=a.test, body=list(a.body) + list(otherwise), orelse=list(on_sent))]
+            elif len(a.body) == 1 and is_sent_assign(a.body[0]) and is_val_assign(a.orelse[-1]) and not any(mentions(s) for s in a.orelse):
+                new = [ast.If(test=a.test, body=list(on_sent), orelse=list(a.orelse) + list(otherwise))]
+        if new is None:
+            i += 1
+            continue
+        for n_ in new:
+            if isinstance(n_, ast.If):
+                if not n_.body:
+                    n_.test, n_.body, n_.orelse = _negate(n_.test), n_.orelse, []
+                ast.fix_missing_locations(ast.copy_location(n_, a))
+        out[i:i + 2] = new or [ast.copy_location(ast.Pass(), a)]
+    return out
+
+
 def _kills(stmts, v):
     """index-free test: walking the list, v is assigned (from something that does not read it) before any statement mentions it"""
     for s in stmts:
@@ -1939,6 +2088,7 @@ def canon_flow_list(stmts, pattern=False, tail=True, loads=None):
     `if not c: A else: B` (neither leaving) becomes `if c: B else: A`; if/else assigning one target becomes a conditional expression"""
     out = []
     if not pattern:
+        stmts = _sentinel_elim(list(stmts))
         stmts = _single_use_test_temp(list(stmts), loads)
         if loads is not None and "\0names" in loads:
             stmts = _dead_const_stores(stmts, loads["\0names"])
@@ -2036,7 +2186,54 @@ class _SubstName(ast.NodeTransformer):
         return node
 
 
+class _AnyAll(ast.NodeTransformer):
+    """any(E(x) for x in (c1, .., cn)) -> bool(E(c1) or .. or E(cn));  all(...) -> bool(.. and ..)   (n <= 12, constants)"""
+
+    def visit_Call(self, node):
+        self.generic_visit(node)
+        if isinstance(node.func, ast.Name) and node.func.id in ("any", "all") and len(node.args) == 1 and not node.keywords and isinstance(node.args[0], (ast.GeneratorExp, ast.ListComp)):
+            g = node.args[0]
+            if len(g.generators) == 1 and not g.generators[0].ifs and not g.generators[0].is_async and isinstance(g.generators[0].target, ast.Name) and isinstance(g.generators[0].iter, (ast.Tuple, ast.List)) \
+                    and 1 <= len(g.generators[0].iter.elts) <= 12 and all(isinstance(e, ast.Constant) for e in g.generators[0].iter.elts):
+                x = g.generators[0].target.id
+                vals = [_Fold().visit(_SubstName(x, e).visit(copy.deepcopy(g.elt))) for e in g.generators[0].iter.elts]
+                inner = vals[0] if len(vals) == 1 else ast.BoolOp(op=ast.Or() if node.func.id == "any" else ast.And(), values=vals)
+                new = ast.Call(func=ast.Name(id="bool", ctx=ast.Load()), args=[inner], keywords=[])
+                return ast.fix_missing_locations(ast.copy_location(new, node))
+        return node
+
+
+def _flag_search_loops(stmts):
+    """v = False; for x in (c1, .., cn): if T(x): v = True; break     ->   v = bool(T(c1) or .. or T(cn))"""
+    out = []
+    i = 0
+    while i < len(stmts):
+        a = stmts[i]
+        lp = stmts[i + 1] if i + 1 < len(stmts) else None
+        if (isinstance(a, ast.Assign) and len(a.targets) == 1 and isinstance(a.targets[0], ast.Name) and isinstance(a.value, ast.Constant) and a.value.value is False
+                and isinstance(lp, ast.For) and not lp.orelse and isinstance(lp.target, ast.Name) and isinstance(lp.iter, (ast.Tuple, ast.List)) and 1 <= len(lp.iter.elts) <= 12
+                and all(isinstance(e, ast.Constant) for e in lp.iter.elts) and len(lp.body) == 1 and isinstance(lp.body[0], ast.If) and not lp.body[0].orelse and len(lp.body[0].body) == 2
+                and isinstance(lp.body[0].body[0], ast.Assign) and len(lp.body[0].body[0].targets) == 1 and isinstance(lp.body[0].body[0].targets[0], ast.Name) and lp.body[0].body[0].targets[0].id == a.targets[0].id
+                and isinstance(lp.body[0].body[0].value, ast.Constant) and lp.body[0].body[0].value.value is True and isinstance(lp.body[0].body[1], ast.Break)):
+            x = lp.target.id
+            vals = [_Fold().visit(_SubstName(x, e).visit(copy.deepcopy(lp.body[0].test))) for e in lp.iter.elts]
+            inner = vals[0] if len(vals) == 1 else ast.BoolOp(op=ast.Or(), values=vals)
+            new = ast.Assign(targets=a.targets, value=ast.Call(func=ast.Name(id="bool", ctx=ast.Load()), args=[inner], keywords=[]))
+            out.append(ast.fix_missing_locations(ast.copy_location(new, a)))
+            i += 2
+            continue
+        out.append(a)
+        i += 1
+    return out
+
+
 def unroll_const_loops(tree):
+    _AnyAll().visit(tree)
+    for n in ast.walk(tree):
+        for f in ("body", "orelse", "finalbody"):
+            v = getattr(n, f, None)
+            if isinstance(v, list) and v and isinstance(v[0], ast.stmt):
+                setattr(n, f, _flag_search_loops(v))
     for n in ast.walk(tree):
         for f in ("body", "orelse", "finalbody"):
             v = getattr(n, f, None)
@@ -2113,6 +2310,11 @@ class _Compare(ast.NodeTransformer):
 
 
 def canon_flow(tree, pattern=False):
+    _SENTINELS.clear()
+    if isinstance(tree, ast.Module) and not pattern:
+        for s in tree.body:
+            if isinstance(s, ast.Assign) and len(s.targets) == 1 and isinstance(s.targets[0], ast.Name) and s.targets[0].id.startswith("_") and isinstance(s.value, ast.Call) and isinstance(s.value.func, ast.Name) and s.value.func.id == "object" and not s.value.args:
+                _SENTINELS.add(s.targets[0].id)
     _Compare().visit(tree)
     for n in ast.walk(tree):
         for f in ("body", "orelse", "finalbody"):
